@@ -63,6 +63,7 @@ class Gen:
         self.init = []
         self.body = []
         self.noinit = set()
+        self.helper_names = set()
         self.data_planned = []
         self.large_discrete = []
         self.linear_only = set()
@@ -131,7 +132,9 @@ class Gen:
     def new_fin(self):
         r = self.rng
         name = next(n for n in FIN_NAMES if n not in self.fin)
-        kind = r.choice(["bern", "bern", "cat", "du", "toggle", "choice", "choice-frac", "counter", "copy", "prod", "draw-then-flip"])
+        kind = r.choice(["bern", "bern", "cat", "du", "toggle", "choice", "choice-frac", "counter", "copy", "prod", "draw-then-flip", "sum2"])
+        if kind == "sum2" and "da" in self.helper_names:
+            kind = "du"
         if self.profile == "guarded" and r.random() < 0.25:
             kind = "draw-then-flip"
         if kind in ("copy", "prod") and not self.fin:
@@ -187,6 +190,18 @@ class Gen:
             vals = {F(a_), F(a_ - 1)}
             upd = ("drawflip", a_)
             self.feat("fin-draw-then-reassign")
+        elif kind == "sum2":
+            # a polynomial of two finite helper variables: many combinations (36) but few distinct values (<= 15)
+            lo = r.choice([0, 1])
+            hi = lo + 5
+            op = r.choice(["+", "+", "*", "-"])
+            f_ = {"+": lambda a, b: a + b, "*": lambda a, b: a * b, "-": lambda a, b: a - b}[op]
+            vals = {F(f_(a, b)) for a in range(lo, hi + 1) for b in range(lo, hi + 1)}
+            self.helper_names.update({"da", "db"})
+            self.init.append(("assign", "da", ("poly", num(lo))))
+            self.init.append(("assign", "db", ("poly", num(lo))))
+            upd = ("sum2", lo, hi, op)
+            self.feat("fin-polynomial-of-two-finite-variables-36-combinations")
         elif kind == "copy":
             src = r.choice(list(self.fin))
             vals = set(self.fin[src])
@@ -641,6 +656,10 @@ class Gen:
                 fin_stmts.append(("assign", name, ("draw", "Bernoulli", [self.prob_expr()])))
                 fin_stmts.append(("assign", name, ("poly", binop("-", num(upd[1]), var(name)))))
                 self.feat("multi-assign-same-var")
+            elif upd[0] == "sum2":
+                fin_stmts.append(("assign", "da", ("draw", "DiscreteUniform", [num(upd[1]), num(upd[2])])))
+                fin_stmts.append(("assign", "db", ("draw", "DiscreteUniform", [num(upd[1]), num(upd[2])])))
+                fin_stmts.append(("assign", name, ("poly", binop(upd[3], var("da"), var("db")))))
             elif upd[0] == "prodbern":
                 tmpn = name
                 fin_stmts.append(("assign", tmpn, ("draw", "Bernoulli", [self.prob_expr()])))
